@@ -229,3 +229,123 @@ for _b0 in (4, 8):
         _cls = type(f'IoThreadFunc_b{_b0}', (IoThreadFunc,), dict(b0=_b0, minimal=_min, variant=f'b0={_b0}'))
         _cls.loops = {(IO_KEY, _b0 * 0 + k): L.IndependentWrites(witness=_hdr_witness) for k in range(1, 40)}
         fuc(IO_KEY, props=['C01', 'C04', 'C11'])(_cls)
+
+from .c_loader import THOROUGH      # noqa: E402
+IO_B0 = (4, 8, 16) if THOROUGH else (4, 8)
+if THOROUGH:
+    _cls = type('IoThreadFunc_b16', (IoThreadFunc,), dict(b0=16, minimal=False, variant='b0=16'))
+    _cls.loops = {(IO_KEY, k): L.IndependentWrites(witness=_hdr_witness) for k in range(1, 40)}
+    fuc(IO_KEY, props=['C01', 'C04', 'C11'])(_cls)
+
+
+class IoThreadFuncModular(IoThreadFunc):
+    """the io_thread_func contract as seen at its call site in seismic_file_producer (segyio reader)"""
+    variant = 'call-site view'
+    exact_result = True
+
+    def post(self, c, a, result):
+        pass
+
+    def verify(self, interp, prog, timeout_ms=None):
+        from pyvc.smt import Explorer
+        ex = Explorer(self.fuc_name()); ex.contract = self; ex.prog = prog
+        ex.note_outcome('call-site view of the contract verified per b0 above')
+        return ex, prog.function(self.key)
+
+    def pre(self, c, a):
+        b0 = a['blockshape'][0]
+        geom = a['geom']
+        nIw = sub(geom.fields['ilines'].stop, geom.fields['ilines'].start)
+        buf = a['seismic_buffer']
+        return [mk_bool(isinstance(b0, int) and b0 in IO_B0),        # the body is verified for these inline block extents only
+                mk_bool(a['minimal_il_reader'] is None),
+                eq(a['planes_to_read'], Min(b0, sub(nIw, mul(b0, a['plane_set_id'])))), ge(a['planes_to_read'], 1),
+                mk_bool(isinstance(buf, SArray) and len(buf.shape) == 3) and eq(buf.shape[0], b0),
+                mk_bool(getattr(buf, 'fresh_zeros', False))]
+
+    def fresh_result(self, c, a):
+        return None
+
+    def effects(self, c, a, result):
+        seg = a['seismicfile']
+        geom = a['geom']
+        il0, xl0 = geom.fields['ilines'].start, geom.fields['xlines'].start
+        nIw = sub(geom.fields['ilines'].stop, il0)
+        nXw = sub(geom.fields['xlines'].stop, xl0)
+        nZ = a['trace_length']
+        b0 = a['blockshape'][0]
+        ps = a['plane_set_id']
+        buf = a['seismic_buffer']
+        buf.fn = lambda idx: MX.src(add(il0, Min(add(mul(b0, ps), idx[0]), sub(nIw, 1))), add(xl0, Min(idx[1], sub(nXw, 1))), Min(idx[2], sub(nZ, 1)))
+        buf.fresh_zeros = False
+        c.ghost.setdefault('header_rows', []).append(dict(ps=ps, first=mul(b0, ps), count=a['planes_to_read'], store=a['store_headers']))
+
+
+fuc(IO_KEY, props=[], modular=True)(IoThreadFuncModular)
+
+
+class SeismicFileProducer(ProducerContract):
+    """seismic_file_producer on a regular SEG-Y with an ordinal window, segyio reader"""
+    loops = {1: L.EventLoop(), 2: L.EventLoop(), 3: L.EventLoop(), 4: L.EventLoop()}
+    reduce_iops = False
+
+    def inputs(self, c):
+        prog = c.ex.prog
+        rate, b = self.cfg
+        nI = c.sym_int('nI', lo=2, name='source.n_ilines'); nX = c.sym_int('nX', lo=2, name='source.n_xlines'); nZ = c.sym_int('nZ', lo=2, name='n_samples')
+        seg = MX.mk_segy(c, nI, nX, nZ)
+        geom, (il0, xl0, nIw, nXw) = window_geometry(c, prog, nI, nX)
+        c.assume(ge(nIw, 2), ge(nXw, 2))
+        n = (nIw, nXw, nZ)
+        G = []
+        for k in range(3):
+            Gk = c.sym_int(f'G{k}', lo=1, name=f'blocks_axis{k}')
+            c.assume(le(n[k], mul(b[k], Gk)), lt(sub(mul(b[k], Gk), b[k]), n[k]))
+            G.append(Gk)
+        P = [mul(b[k], G[k]) for k in range(3)]
+        a_ = [bb // 4 for bb in b]
+        ub = S.unit_bytes(rate, 3)
+        q = SObj(None, clsname='$queue')
+        win = (il0, xl0)
+        q.fields['on_put'] = self.put_hook_window(n, G, P, a_, ub, win)
+        h = SObj(None, clsname='$hash')
+        h.fields.update(log=[], alg='sha1', on_update=self.hash_hook_window(n, b[0], win))
+        return dict(queue=q, seismicfile=seg, blockshape=tuple(b), store_headers=True, headers_dict={}, geom=geom, hash_object=h,
+                    reduce_iops=self.reduce_iops, verbose=False, _n=n, _G=G, _win=win)
+
+    def put_hook_window(self, n, G, P, a_, ub, win):
+        base_hook = self.put_hook(n, G, P, a_, ub)
+        il0, xl0 = win
+        # same obligations as the NumPy producer, with the source addressed through the window origin
+        import contracts.c_producers as CP
+
+        def hook(c, ev):
+            old = CP.edgepad
+            CP.edgepad = lambda nn, i, x, z: MX.src(add(il0, Min(i, sub(nn[0], 1))), add(xl0, Min(x, sub(nn[1], 1))), Min(z, sub(nn[2], 1)))
+            try:
+                base_hook(c, ev)
+            finally:
+                CP.edgepad = old
+        return hook
+
+    def hash_hook_window(self, n, b0, win):
+        il0, xl0 = win
+        base = self.hash_hook(n, b0)
+        import contracts.c_producers as CP
+
+        def hook(c, ev):
+            old = CP.src
+            CP.src = lambda i, x, z: MX.src(add(il0, i), add(xl0, x), z)
+            try:
+                base(c, ev)
+            finally:
+                CP.src = old
+        return hook
+
+    def post(self, c, a, result):
+        c.ensure(mk_bool(len(c.ghost.get('puts', [])) >= 1), 'puts_happened')
+        c.ensure(mk_bool(len(a['hash_object'].fields['log']) >= 1), 'hash_updates_happened')
+        c.ensure(mk_bool(len(c.ghost.get('header_rows', [])) >= 1), 'plane_sets_filled_through_io_thread_func')
+
+
+register(SeismicFileProducer, 'conversion_utils.py::seismic_file_producer', ['C01', 'C11', 'C20'], [cf for cf in ALL3 if cf[1][0] in (4, 8)], modes=('file',))
